@@ -14,6 +14,7 @@ import (
 	"math/rand"
 	"os"
 	"strings"
+	"time"
 )
 
 // slice interprets the operation lines of one slice against the real implementation.
@@ -64,7 +65,11 @@ func (e *executor) line(line string) string {
 		s = mk()
 		e.live[toks[0]] = s
 	}
-	obs := safeExec(s, toks[1:])
+	obs, hung := safeExec(s, toks[1:])
+	if hung {
+		// the operation is still running on its own goroutine: abandon this slice instance
+		delete(e.live, toks[0])
+	}
 	if obs == "" {
 		fmt.Fprintln(e.out, line)
 	} else {
@@ -80,14 +85,26 @@ func execStream(in *bufio.Scanner, out *bufio.Writer) {
 	}
 }
 
-func safeExec(s slice, toks []string) (obs string) {
-	defer func() {
-		if r := recover(); r != nil {
-			obs = fmt.Sprintf("panic:%v", r)
-			obs = strings.ReplaceAll(obs, "\n", " ")
-		}
+// opWatchdog bounds one protocol operation: an implementation that no longer terminates on a case (an unlimited retry loop
+// whose stop condition was lost, a wait nobody wakes) is reported as the observation "hang" instead of stalling the run.
+var opWatchdog = 20 * time.Second
+
+func safeExec(s slice, toks []string) (obs string, hung bool) {
+	done := make(chan string, 1)
+	go func() {
+		defer func() {
+			if r := recover(); r != nil {
+				done <- strings.ReplaceAll(fmt.Sprintf("panic:%v", r), "\n", " ")
+			}
+		}()
+		done <- s.exec(toks)
 	}()
-	return s.exec(toks)
+	select {
+	case o := <-done:
+		return o, false
+	case <-time.After(opWatchdog):
+		return fmt.Sprintf("hang: the operation did not return within %v", opWatchdog), true
+	}
 }
 
 func main() {
